@@ -116,7 +116,9 @@ Theorem C10_xml_lang : forall ft scope fl a lex c l, is_qname_attr a = false ->
   spec_xml_value ft scope fl a (VLit lex (Some (prov_qn "InternationalizedString")) (Some (String c l)))
   = Some (content_value (VLit lex (Some (prov_qn "InternationalizedString")) (Some (String c l)))).
 Proof. exact spec_xml_lang. Qed.
-Theorem C10_xml_foreign : forall ft scope fl a lex d, is_qname_attr a = false -> intl_string d = false ->
+(* (no exclusion of prov:InternationalizedString any more: since the repair c04dcec the writer types an untagged literal
+   of that datatype like any other foreign literal) *)
+Theorem C10_xml_foreign : forall ft scope fl a lex d, is_qname_attr a = false ->
   ns_prefix (qn_ns d) <> "" -> contains_char colon (ns_prefix (qn_ns d)) = false ->
   lookup (ns_prefix (qn_ns d)) scope = Some (ns_uri (qn_ns d)) ->
   String.eqb (ns_uri (qn_ns d)) XmlSpec.xsd_ns = false ->
